@@ -755,6 +755,7 @@ func TestVerifC12(t *testing.T) {
 	c12Dists(c)
 	c12TTests(c, mc.Pick(c, 4, 5))
 	c12Samples(c, mc.Pick(c, 5, 6))
+	c12Reuse(c)
 	mc.FirstCalls(c, c12Calls, "TestVerifC12Fresh", "VERIF_C12_CALLS")
 	if code := c.Finish(); code != 0 {
 		os.Exit(code)
